@@ -28,25 +28,29 @@ def nontrivial(e):
     return True
 
 
+# the models are small: a modest heap keeps the JVMs out of the way of concurrently running checks
+HEAP = dict(heap="2g")
+
+
 def MC_RUNS(quick):
     runs = [("MCCurveX", "MCCurveX", "the definition (lib/CurveX over lib/Tower) is a group law: all 81 pairs (a, b) over F_9 = "
                                      "F_3[u]/(u^2+1), 72 nonsingular curves; closure, identity, inverse, commutativity on ALL pairs of "
                                      "points, associativity on ALL triples, [#E]P = O; XMulB = XMulNat (all points, k <= 40), "
-                                     "TPowB = TExp, PMulB = PMulNat (balanced recursion = definition)", False),
+                                     "TPowB = TExp, PMulB = PMulNat (balanced recursion = definition)", False, HEAP),
             ("MCFrbTwist", "MCFrbTwist", "tiny BN world (x = -1: p = 19, r = 13, t = 7, F_361 = F_19[u]/(u^2+1); every b with "
                                          "#E(F_p) = 13, every xi = c + u neither square nor cube: 12 leaf states): exactly one of the "
                                          "D/M twists has order 13 * 25; on it, with the Frobenius constants as ep2_curve_set_twist "
                                          "derives them, psi is an additive map of the curve, psi^2 - [t]psi + [p] = 0 on ALL 325 points, "
                                          "psi^i = [p^i mod r] (i = 1..3) on the 13 points annihilated by r, the cofactor map as coded in "
-                                         "ep2_mul_cof_bn sends ALL points into the order-r subgroup", False)]
+                                         "ep2_mul_cof_bn sends ALL points into the order-r subgroup", False, HEAP)]
     if not quick:
         runs += [("MCCurveX", "MCCurveX_p5", "a in {0, 1, u, -3}, all b over F_25 = F_5[u]/(u^2-2): 100 curves; all pairs; associativity "
-                                             "on all triples (P, Q, R) with Q, R from every 6th point and the 2-torsion", False),
+                                             "on all triples (P, Q, R) with Q, R from every 6th point and the 2-torsion", False, HEAP),
                  ("MCCurveX", "MCCurveX_p7", "a in {0, 1, u, -3}, b = b0 + b1 u, b1 in {0, 1}, over F_49 = F_7[u]/(u^2+1): 56 curves; all "
-                                             "pairs; associativity with Q, R from every 10th point and the 2-torsion", False),
+                                             "pairs; associativity with Q, R from every 10th point and the 2-torsion", False, HEAP),
                  ("MCFrbTwist", "MCFrbTwist_b12", "tiny BLS12 world (x = -2: p = 37, r = 13, t = -1, F_p2 = F_37[u]/(u^2-2)): twist of "
                                                   "order 13 * 109, ALL 1417 points: psi endomorphism, characteristic equation, psi = [p] "
-                                                  "on the subgroup, ep2_mul_cof_b12's formula lands in the subgroup", False)]
+                                                  "on the subgroup, ep2_mul_cof_b12's formula lands in the subgroup", False, HEAP)]
     return runs
 
 
@@ -145,7 +149,7 @@ def run(tier, seed):
         if not cases:
             return
         conf.run(label, cfg, "ep2", DRV, cases, SPEC, nontrivial=nontrivial,
-                 min_per_shard=1 if heavy else 60, driver_timeout=1500, tlc_timeout=2400)
+                 min_per_shard=1 if heavy else 60, driver_timeout=1500, tlc_timeout=2400, heap="2g")
 
     def config(cfg, q, scale=1.0):
         curves = discover(cfg, wd)
